@@ -142,6 +142,37 @@ fn real_stream(variant: u32, n: u64) -> (Vec<u8>, u128, u128, Vec<u8>) {
     }
 }
 
+/// digest of `msg` from an object that was `blocks` blocks into a message (counter words both non-zero),
+/// with bytes buffered, and was then reset / finalised in place: must be the plain digest
+fn digest_after_reset(variant: u32, msg: &[u8], mode: u8) -> Vec<u8> {
+    macro_rules! go {
+        ($t:ident, $w:ident) => {{
+            let mut h = $t::default();
+            let (cv, _, _, _) = h.verif_get_state();
+            let hi: $w = 3;
+            let lo: $w = (0 as $w).wrapping_sub(4096);
+            h.verif_set_state(cv, (lo, hi), &[0x33u8; 5][..]);
+            match mode % 3 {
+                0 => digest::Reset::reset(&mut h),
+                1 => {
+                    let _ = digest::FixedOutput::finalize_fixed_reset(&mut h);
+                }
+                _ => {
+                    let _ = Digest::finalize_reset(&mut h);
+                }
+            }
+            digest::Update::update(&mut h, msg);
+            digest::FixedOutput::finalize_fixed(h).to_vec()
+        }};
+    }
+    match variant {
+        224 => go!(Blake224, u32),
+        256 => go!(Blake256, u32),
+        384 => go!(Blake384, u64),
+        _ => go!(Blake512, u64),
+    }
+}
+
 struct Case {
     coq: String,
     json: String,
@@ -463,6 +494,22 @@ fn main() {
                 cases.push(hook_case(v, &h, t0, t1, &buffered, &tail));
                 n_hook += 1;
             }
+        }
+        // an object far into a message is reset (three ways) and reused: plain digest cases
+        for mode in 0..3u8 {
+            let len = [0usize, block - 9, 2 * block + 1][mode as usize];
+            let msg = content(&mut rng, mode as u64 + 1, len);
+            let d = digest_after_reset(v, &msg, mode);
+            let mut c = digest_case(v, &msg);
+            let plain = digest(v, &msg);
+            if d != plain {
+                direct.push(format!(
+                    "{{\"kind\":\"reset of an object far into a message\",\"variant\":{},\"mode\":{},\"len\":{},\"digest\":{},\"fresh_digest\":{}}}",
+                    v, mode, len, jstr(&hex(&d)), jstr(&hex(&plain))
+                ));
+            }
+            c.coq = format!("BD {} {} {} {}", v, msg.len(), nlit(&msg), nlit(&d));
+            cases.push(c);
         }
         // the hook itself: get_state/set_state round trip on naturally reached states
         for _ in 0..(if thorough { 40 } else { 6 }) {
